@@ -48,6 +48,12 @@ const AB: [&str; 2] = ["a", "b"];
 #[test] fn nb_peg_d1() { sweep("nb_peg_d1", &AB, 6, |s| cmp::<GD1<'_>, XD1>(s)); }
 #[test] fn nb_peg_slice() { sweep("nb_peg_slice", &AB, 9, |s| cmp::<GSlice<'_>, XSlice>(s)); }
 #[test] fn nb_peg_leaf() { sweep("nb_peg_leaf", &["a", "B", "*", "/", "\r", "\n", "é", "😀"], 5, |s| cmp::<GLeaf<'_>, XLeaf>(s)); }
+const ABC: [&str; 3] = ["a", "b", "c"];
+#[test] fn nb_peg_bal() { sweep("nb_peg_bal", &ABC, 7, |s| cmp::<GBal<'_>, XBal>(s)); }
+#[test] fn nb_peg_optpush() { sweep("nb_peg_optpush", &ABC, 7, |s| cmp::<GOptPush<'_>, XOptPush>(s)); }
+#[test] fn nb_peg_reppush() { sweep("nb_peg_reppush", &ABC, 8, |s| cmp::<GRepPush<'_>, XRepPush>(s)); }
+#[test] fn nb_peg_repbal() { sweep("nb_peg_repbal", &ABC, 8, |s| cmp::<GRepBal<'_>, XRepBal>(s)); }
+#[test] fn nb_peg_predmut() { sweep("nb_peg_predmut", &ABC, 6, |s| cmp::<GPredMut<'_>, XPredMut>(s)); }
 #[test] fn nb_peg_nest() { sweep("nb_peg_nest", &AB_, 8, |s| cmp::<GNest, XNest>(s)); }
 
 // ---- C17: repetition iterators yield the iterations in input order ------------------------------------------------
